@@ -317,6 +317,20 @@ def read_rules(ctx):
     selfp = ("param", 1, "self")
     # ---- merge before read ------------------------------------------------------------------------------------
     readers = {TI + "::quantile", TI + "::cdf", TI + "::count", TI + "::sum"}
+    # private helpers of TDigest that merge on every path (`fn merged(&self) -> Ref<Inner> { self.inner.borrow_mut().merge(); self.inner.borrow() }`)
+    mergers = {TI + "::merge"}
+    changed = True
+    while changed:
+        changed = False
+        for g in prog.fns.values():
+            if g.key in mergers or g.impl_self != TD or g.name in ("quantile", "cdf", "count", "sum", "mean", "n_centroids") or g.loop_heads():
+                continue
+            ps = [p for p in PathEnumerator(g, prog, ctx.summ).paths() if p.exit_kind == "return"]
+            if ps and all(any(e["kind"] == "call" and e["callee"] in mergers for e in p.events) and
+                          not any(e["kind"] == "call" and e["callee"] in readers for e in p.events) for p in ps):
+                mergers.add(g.key)
+                ctx.analysed_fns.add(g.key)
+                changed = True
     n_pub = 0
     for name in ("quantile", "cdf", "count", "sum", "mean", "n_centroids"):
         f = ctx.anchor(TD + "::" + name)
@@ -332,7 +346,7 @@ def read_rules(ctx):
             n += 1
             merged = False
             for e in p.events:
-                if e["kind"] == "call" and e["callee"] == TI + "::merge":
+                if e["kind"] == "call" and e["callee"] in mergers:
                     merged = True
                 if e["kind"] == "call" and (e["callee"] in readers or (e["name"] == "len" and e["args"] and any(s[0] == "field" and s[2] == "centroids" for s in subterms(e["args"][0])))):
                     if not merged:
@@ -360,6 +374,6 @@ def read_rules(ctx):
         if f is None:
             continue
         tbf = TermBuilder(f, prog)
-        site = [bi for bi, t in f.calls() if t.callee_name() == "borrow_mut"]
+        site = [bi for bi, t in f.calls() if t.callee_name() == "borrow_mut" or t.callee() in mergers]
         okv = bool(site) and all(want(atomic_facts(f, prog, bi, tbf), None) for bi in site)
         ctx.check(okv, "R15-validation", f.key, f, "argument assert dominates the first borrow", "%s does not validate its argument before touching the digest" % name)
